@@ -20,6 +20,7 @@ def run(chk):
     ]
     ok = chk.check_theorems()
     rc.run_runner_check(chk, "C16", "proj_C16", OPTS, theorems_ok=ok)
+    rc.slow_hooks_part(chk, "C16", OPTS)
     if ok:
         import source_tie
         source_tie.runner_ties(chk)
